@@ -1,7 +1,11 @@
 pub mod c09;
+pub mod c10;
+pub mod conn;
 pub mod evict;
 pub mod hmodel;
 pub mod netscn;
+pub mod pairs;
+pub mod startup;
 pub mod tchecks;
 
 use crate::check::Check;
@@ -13,6 +17,9 @@ pub fn all() -> Vec<Box<dyn Check>> {
     v.extend(netscn::checks());
     v.extend(tchecks::checks());
     v.extend(evict::checks());
+    v.extend(conn::checks());
+    v.extend(c10::checks());
+    v.extend(pairs::checks());
     v
 }
 
